@@ -67,6 +67,14 @@ EmptyFaults(s) == IF s.base \in EmptyKinds /\ s.cls # "offset"
                            t \in {s.base} \cup (IF s.cls = "content" THEN {} ELSE {"r_" \o s.base})}
                   ELSE {}
 
+\* ------------------------------------------------------------------ boundary values inside payloads
+\* operands written inside a payload (a CMap's bfchar / bfrange entries, the `put` entries of a Type 1 header) are
+\* replaced by boundary values of their own kind: a number by 0x110000 (first code point past Unicode), 0xD800 (a lone
+\* surrogate) and 2**32; a string by FFFFFFFF (an increment overflows four bytes), D800 and a 40-byte string
+ExtremeForms == {0, 1, 2}
+ExtremeFaults(s) == IF s.cls = "content" /\ s.base \in {"int", "string"}
+                    THEN {F("value", s.id, "extreme", s.base, v, 0, "") : v \in ExtremeForms} ELSE {}
+
 \* ------------------------------------------------------------------ removing a key
 Deletes(s) == IF s.cont = "dict" THEN {F("value", s.id, "delete", "", 0, 0, "")} ELSE {}
 
@@ -100,7 +108,7 @@ OffFaults(s) == UNION {{F("value", s.id, k, "", 0, 0, m) : m \in Modes(k, s)} : 
 RawForms == {0, 1}
 RawStrFaults(s) == IF s.enc /\ s.cls = "value" THEN {F("value", s.id, "rawstr", "", v, 0, "") : v \in RawForms} ELSE {}
 
-SiteFaults(s) == RetypeSet(s) \cup Deletes(s) \cup EmptyFaults(s)
+SiteFaults(s) == RetypeSet(s) \cup Deletes(s) \cup EmptyFaults(s) \cup ExtremeFaults(s)
                  \cup (CASE s.cls = "offset" -> OffFaults(s) [] s.cls = "value" -> RefFaults(s) [] OTHER -> {})
                  \cup RawStrFaults(s)
 
@@ -161,6 +169,7 @@ PerSiteRetypes(s) ==
   IN d1 + dn * NV + nm + (IF s.cls = "content" THEN 0 ELSE r1 + rn * NV + nm)
 PerSite(s) == PerSiteRetypes(s) + (IF s.cont = "dict" THEN 1 ELSE 0)
               + (IF s.base \in EmptyKinds /\ s.cls # "offset" THEN (IF s.cls = "content" THEN 1 ELSE 2) ELSE 0)
+              + (IF s.cls = "content" /\ s.base \in {"int", "string"} THEN Cardinality(ExtremeForms) ELSE 0)
               \* offsets: 7 kinds, 4 of them cycles (x 2 modes); values: ref_missing + 2 loops x 2 modes (+ ref_self x 2)
               + (LET m == IF s.nocache THEN 2 ELSE 1 IN
                  CASE s.cls = "offset" -> 3 + 4 * m [] s.cls = "value" -> 1 + 2 * m + (IF s.ownerobj # 0 THEN m ELSE 0)
@@ -215,7 +224,8 @@ Applicable ==
          /\ (fault.kind = "retype" => fault.to # "stream" /\ fault.variant \in VariantsOf(fault.to))
          /\ (fault.kind = "rawstr" => at.enc /\ at.cls = "value" /\ fault.variant \in RawForms)
          /\ (fault.kind = "empty" => at.base \in EmptyKinds /\ KindOf(fault.to) = at.base)
-         /\ (at.cls = "content" => fault.kind \in {"retype", "delete", "empty"} /\ fault.to \in DirectKinds \cup {""})
+         /\ (at.cls = "content" => fault.kind \in {"retype", "delete", "empty", "extreme"} /\ fault.to \in DirectKinds \cup {""})
+         /\ (fault.kind = "extreme" => at.cls = "content" /\ fault.to = at.base /\ fault.variant \in ExtremeForms)
     [] fault.cls = "payload" -> /\ at.t = "stream" /\ fault.site = at.id /\ fault.pos < at.n
                                 /\ (fault.kind = "setfield" => <<fault.pos, fault.variant>> \in at.fields
                                                                 /\ fault.pos + fault.variant <= at.n)
